@@ -23,6 +23,7 @@ import traceback
 import xml.etree.ElementTree as ET
 
 from harness import common as C
+from harness import c05_codec as K
 
 PROP = "C05"
 
@@ -37,6 +38,8 @@ F1, F2, F3 = "C05-F1", "C05-F2", "C05-F3"
 # (<nowiki> / </nowiki> inside a description are deleted by the MediaWiki reader).  VERIF_C05_FIXED=0 is the
 # oracle for the unrepaired code with all four finding classes.
 FIXED = int(os.environ.get("VERIF_C05_FIXED", "1"))
+FIXED5 = K.FIXED5      # VERIF_C05_FIXED_F5 (default 1, fix 4b4f5c6 is in /repo): without fix-F5 a name ending in a non-ASCII blank is C05-F5
+F5 = "C05-F5"
 WIKI_RESERVED = ("<nowiki>", "</nowiki>") if FIXED else ("extend here", "<nowiki>", "</nowiki>")
 
 # Defect classes found by this oracle that are not (yet) registered findings.  Failures of such a class carry
@@ -177,14 +180,16 @@ def _item(kind, key, el, norm=False):
     return (kind, key, d, tuple(sorted((a, tuple(v)) for a, v in _attrs(el))))
 
 
-def listing(root, norm_desc=False):
+def listing(root, norm_desc=False, norm_name=False):
     """Canonical listing of a schema XML tree, computed without hed: header, prologue, epilogue and a multiset of
     (section kind, key, description or None, sorted ((attribute, (values...)), ...)).
     norm_desc (only for the EXPECTATION derived from an edit, never for the saved file): outer white space is not
     part of a description, a description of white space only is absent (the rule all three readers follow since
     the repair of C05-F1)."""
     items = collections.Counter()
-    _item_ = lambda k, key, el: _item(k, key, el, norm_desc)  # noqa
+    # norm_name (expectation side only, with fix-F5): outer white space is not part of a name either
+    nn = (lambda x: x.strip() if isinstance(x, str) else x) if norm_name else (lambda x: x)  # noqa
+    _item_ = lambda k, key, el: _item(k, tuple(nn(x) for x in key), el, norm_desc)  # noqa
 
     def walk(el, path):
         for n in el.findall("node"):
@@ -478,17 +483,24 @@ def _clean_desc(rng, new_era):
         s = "q" + s
     for w in WIKI_RESERVED:
         s = s.replace(w, "x")
-    return s or "d"
+    s = s or "d"
+    if new_era and rng.random() < 0.3:
+        # the text class admits every code point above 127: line/paragraph separators, NEL, exotic blanks, zero
+        # width characters, combining marks, astral code points, bidi controls ... in interior and outer positions
+        # (outer blanks need the repair of C05-F1: all readers strip them)
+        s = K.exoticise(rng, s, outer_ok=bool(FIXED))
+    return s
 
 
 class _Gen:
     """Generates the ops of one edit case, applying them to a private copy of the base tree as it goes."""
 
-    def __init__(self, rng, ctx, boundary):
+    def __init__(self, rng, ctx, boundary, plant_names=True):
         self.rng, self.c = rng, ctx
         self.root = copy.deepcopy(ctx.root)
         self.boundary = boundary          # None or a finding id: plant exactly one boundary description
         self.planted = None
+        self.planted_name = None if plant_names else "\0disabled"     # histories use clean edits only
         self.ops = []
         m = ctx.merged_root
         self.tag_names = {(_name(n) or "").casefold() for n in m.iter("node")}
@@ -547,10 +559,22 @@ class _Gen:
                 first = rng.choice(UP * 3 + DG + NA_UP)
                 body_chars = LO * 4 + UP + DG + "---" + NA_LO + ("._" if new else "")
                 nm = first + "".join(rng.choice(body_chars) for _ in range(rng.choice([1, 2, 3, 5, 8, 13])))
+            if new and rng.random() < 0.10 and len(nm) >= 2:
+                nm = K.exoticise(rng, nm, outer_ok=False)            # interior: any non-ASCII code point is a name character
             if nm.casefold() not in self.tag_names and nm != "#":
                 self.tag_names.add(nm.casefold())
-                return nm
+                return self.outer_blank_name(nm)
         raise RuntimeError("no fresh tag name")
+
+    def outer_blank_name(self, nm, leading=False):
+        """With a small probability (once per case) end the name in a non-ASCII blank: allowed by the name class,
+        not expressible in a MediaWiki line (finding C05-F5 unless VERIF_C05_FIXED_F5=1)."""
+        if self.c.new_era and not self.planted_name and self.rng.random() < 0.05:
+            self.planted_name = nm + self.rng.choice(K.EXOTIC_WS)
+            if leading and self.rng.random() < 0.4:
+                self.planted_name = self.rng.choice(K.EXOTIC_WS) + nm
+            return self.planted_name
+        return nm
 
     def other_name(self, suffix=""):
         rng, new = self.rng, self.c.new_era
@@ -558,9 +582,11 @@ class _Gen:
             chars = LO * 4 + UP + DG + "-" + NA_LO + ("._" if new else "_")
             nm = rng.choice(LO + UP + NA_LO) + "".join(rng.choice(chars) for _ in range(rng.choice([1, 2, 4, 7]))) \
                 + suffix
+            if new and rng.random() < 0.10 and len(nm) >= 2 and not suffix:
+                nm = K.exoticise(rng, nm, outer_ok=False)
             if nm.casefold() not in self.other_names:
                 self.other_names.add(nm.casefold())
-                return nm
+                return self.outer_blank_name(nm, leading=True) if not suffix else nm
         raise RuntimeError("no fresh name")
 
     def tag_attrs(self, k=None):
@@ -874,6 +900,21 @@ def _corpus():
     w = _witness("HED8.3.0.xml", "merged", "see extend here for more")
     w["expect_fid"] = F3
     cs.append(w)
+    # C05-F5: a name ending in a non-ASCII blank (node and unit)
+    w = _witness("HED8.3.0.xml", "merged", "d", name="Zz-witness\u00a0")
+    w["expect_fid"] = F5
+    cs.append(w)
+    # regression: every special non-ASCII code point in the interior of a description, and line/paragraph
+    # separators at both ends, on a node and on a unit (the class that str.splitlines would cut)
+    ops = []
+    for i, ch in enumerate(K.EXOTIC_LINE + K.EXOTIC_BLANK + K.EXOTIC_OTHER):
+        ops.append({"op": "add", "kind": "witness", "sec": "schema", "path": [], "at": None,
+                    "elem": {"tag": "node", "name": f"Zz-exotic-{i}", "desc": f"left{ch}right", "attrs": []}})
+    ops.append({"op": "add", "kind": "witness", "sec": "schema", "path": [], "at": None,
+                "elem": {"tag": "node", "name": "Zz-exotic-outer", "desc": "\u2028both ends\u0085", "attrs": []}})
+    ops.append({"op": "add", "kind": "witness", "sec": "unitClassDefinitions", "path": ["weightUnits"], "at": None,
+                "elem": {"tag": "unit", "name": "zzstone", "desc": "An old unit.\u202814 pounds.", "attrs": []}})
+    cs.append({"kind": "edit", "schema": "HED8.3.0.xml", "base": "merged", "files": True, "ops": ops})
     # further shapes of the same findings
     for d, f in (("nbsp last\u00a0", F1), ("\"", F2), ("a <nowiki> b", F3), ("a </nowiki> b", F3)):
         w = _witness("HED8.3.0.xml", "merged", d)
@@ -943,14 +984,16 @@ EDIT_MIX_THOROUGH = [("HED8.3.0.xml", "merged", 200), ("HED_score_2.0.0.xml", "m
                      ("HED_testlib_1.0.2.xml", "merged", 10)]
 
 
-def gen_edit_case(rng, schema, base, boundary=None):
+def gen_edit_case(rng, schema, base, boundary=None, plant_names=True):
     c = ctx_for(schema, base)
-    g = _Gen(rng, c, boundary)
+    g = _Gen(rng, c, boundary, plant_names)
     ops = g.run(rng.choice([1, 1, 2, 2, 3, 4]))
     case = {"kind": "edit", "schema": schema, "base": base, "ops": ops,
             "files": rng.random() < 0.35}
     if g.planted and any(el.text == g.planted_text for el in g.root.iter("description")):
         case["planted"] = g.planted
+    if g.planted_name and any(el.text == g.planted_name for el in g.root.iter("name")):
+        case["planted_name"] = g.planted_name
     return case
 
 
@@ -1094,6 +1137,32 @@ def classify(fmt, diffs, exc, case):
         return F1
     if not FIXED and fam == "tsv" and not extra and changed and all((d["od"] or "").startswith('"') for d in changed):
         return F2
+    if not FIXED5 and fam in ("mediawiki", "tsv"):
+        # C05-F5: entries whose name has an outer (non-ASCII) blank come back under the stripped name (MediaWiki);
+        # an attribute value or unit list that refers to such a name loses the blank (MediaWiki and TSV: the
+        # attribute grammar strips values)
+        def comps_strip(nm):
+            return "/".join(x.strip() for x in nm.split("/"))
+
+        def strip_equal(x, y):
+            """attribute dicts equal once outer blanks of value pieces / unit names are dropped, and not equal before"""
+            if not isinstance(x, dict) or not isinstance(y, dict) or set(x) != set(y) or x == y:
+                return False
+            for k in x:
+                vx, vy = x[k], y[k]
+                px = vx if isinstance(vx, list) else vx.split(",") if isinstance(vx, str) else [vx]
+                py = vy if isinstance(vy, list) else vy.split(",") if isinstance(vy, str) else [vy]
+                if sorted(str(v).strip() for v in px) != sorted(str(v).strip() for v in py):
+                    return False
+            return True
+        missing = [d for d in changed if d["kind"] == "missing"]
+        rest = [d for d in changed if d["kind"] != "missing"]
+        names_ok = all(comps_strip(d["name"]) != d["name"] for d in missing) \
+            and sorted(comps_strip(d["name"]) for d in missing) == sorted(d["name"] for d in extra)
+        rest_ok = all(d["kind"] == "changed" and d["od"] == d["rd"] and d.get("attrs") is not None
+                      and strip_equal(d["attrs"][0], d["attrs"][1]) for d in rest)
+        if (missing or rest) and names_ok and rest_ok and (fam == "mediawiki" or not missing):
+            return F5
     if fam == "mediawiki" and all(d["name"] == "" for d in extra):
         hit = [d for d in changed if any(w in (d["od"] or "") for w in WIKI_RESERVED)]
         rest = [d for d in changed if d not in hit]
@@ -1242,6 +1311,34 @@ def _reload(orig, fmt, m, d, tag):
     raise ValueError(fmt)
 
 
+def _check_lines(orig, m, d, failures, case):
+    """Clause lines-split-only-at-LF: the MediaWiki reader must see exactly the LF-separated lines of the saved text
+    (string source and file source) -- U+0085, U+2028, U+2029 ... are characters of a line, not line ends.  This is
+    the assumption under every per-line theorem (Model/WikiCodec.v open_file_lines)."""
+    try:
+        text = orig.get_as_mediawiki_string(m)
+        got = K.canon_lines(K.impl_open_file_lines(text))
+        want = K.canon_lines(text.split("\n"))
+        src = "string"
+        if got == want:
+            p = os.path.join(d, f"lines{int(m)}.mediawiki")
+            orig.save_as_mediawiki(p, m)
+            with open(p, "rb") as f:
+                ftext = f.read().decode("utf-8")
+            got = K.canon_lines(K.impl_open_file_lines(None, p))
+            want = K.canon_lines(K.lf_lines(ftext, keepends=True))
+            src = "file"
+        if got != want:
+            k = next((i for i, (a, b) in enumerate(zip(got, want)) if a != b), min(len(got), len(want)))
+            failures.append(_fail("lines-split-only-at-LF", "mediawiki", m,
+                                  f"{src} source: the reader sees {len(got)} lines, the saved text has {len(want)} "
+                                  f"LF-separated lines; first difference at line {k + 1}: "
+                                  f"{(got[k] if k < len(got) else None)!r} vs {(want[k] if k < len(want) else None)!r}"[:500],
+                                  witness=_case_witness(case)))
+    except Exception as e:  # noqa
+        failures.append(_fail("lines-split-only-at-LF", "mediawiki", m, f"raised {type(e).__name__}: {str(e)[:200]}"))
+
+
 def _run_case(case, res, d):
     from hed.schema import load_schema, from_string
     schema = case["schema"]
@@ -1287,10 +1384,13 @@ def _run_case(case, res, d):
         fmts += ["xml-file", "mediawiki-file"]
     # NB the in-memory from_dataframes(get_as_dataframes()) path is not an observation point of the property (under
     # pandas 3 it raises on None descriptions even for bundled schemas): TSV goes through files only.
-    lst = listing(root, norm_desc=bool(FIXED))
+    lst = listing(root, norm_desc=bool(FIXED), norm_name=bool(FIXED5))
     std_lst = std_listing_for(c.with_std) if partnered else None
     loaded = []           # (fmt, merged, reloaded schema, keys of differing entries, fid, equals original)
     mal_out = collections.Counter()
+    if not malformed:
+        for m in modes:
+            _check_lines(orig, m, d, failures, case)
     for m in modes:
         for fmt in fmts:
             r, xml_text, exc = None, None, None
@@ -1607,7 +1707,7 @@ def _sections_edit(rng, schema, base):
     """An edit that puts entries into sections that are empty in an unmerged save of the bundled schema: a unit
     class with units, a value class and a unit modifier (plus one ordinary op)."""
     c = ctx_for(schema, base)
-    g = _Gen(rng, c, None)
+    g = _Gen(rng, c, None, plant_names=False)
     g.op_add_unit_class()
     g.op_add_value_class()
     g.op_add_modifier()
@@ -1651,8 +1751,8 @@ def gen_histories(rng, tier):
         r = random.Random(rng.getrandbits(64))
         schema, base = r.choice([("HED8.3.0.xml", "merged"), ("HED_score_2.0.0.xml", "merged"),
                                  ("HED_testlib_2.0.0.xml", "unmerged"), ("HED8.2.0.xml", "merged")])
-        s1 = gen_edit_case(r, schema, base, None)
-        s2 = gen_edit_case(r, schema, base, None)
+        s1 = gen_edit_case(r, schema, base, None, plant_names=False)
+        s2 = gen_edit_case(r, schema, base, None, plant_names=False)
         add(r.choice(HISTORY_FMTS), s1, r.random() < 0.5, s2, r.random() < 0.5)
     return out
 
